@@ -235,6 +235,14 @@ def run(res: C.Result):
             continue
         kind = c["kind"]
         dist["kind"][kind] = dist["kind"].get(kind, 0) + 1
+        if r.get("parts_sum") and r.get("outs"):
+            ps, got = r["parts_sum"], r["outs"][0]
+            a = [float.fromhex(x) for x in ps["value"]]
+            b = [float.fromhex(x) for x in got["value"]]
+            if ps["shape"] != got["shape"] or any(abs(x - y) > 1e-12 * (1 + abs(x)) for x, y in zip(a, b)):
+                res.fail("composite:not-the-sum-of-its-parts", f"composite of {[p_['kind'] for p_ in c['op']]} on a group of {len(c['indices'])} atom(s): returned {got['shape']} "
+                         f"{[round(y, 6) for y in b][:9]}, the parts evaluated one after the other with the same draws sum to {[round(x, 6) for x in a][:9]}",
+                         {"input": c, "observed": got, "expected": ps})
         dist["mode"][c["mode"]] += 1
         dist["triclinic"] += any(c["cell"][i][j] for i in range(3) for j in range(3) if i != j)
         dist["custom_masses"] += c["masses"] is not None
